@@ -61,6 +61,8 @@ impl LinkFlowState {
     pub fn sender(inner: LinkFlowStateInner) -> (r: FlowInit) ensures r.inner == inner { FlowInit { inner } }
 }
 pub trait ArcNew: Sized { type Out; spec fn made(self, r: Self::Out) -> bool; fn arc_new(self) -> (r: Self::Out) ensures self.made(r); }
+/// `Arc::new(x)` wherever the code spells it out: a cell of its own, with an identity nothing else shares yet
+impl Arc { pub fn new<T: ArcNew>(x: T) -> (r: T::Out) ensures x.made(r) { x.arc_new() } }
 impl ArcNew for FlowInit { type Out = FlowArc; open spec fn made(self, r: FlowArc) -> bool { r.init() == self.inner } #[verifier::external_body] fn arc_new(self) -> (r: FlowArc) { unimplemented!() } }
 impl ArcNew for RwLockNone { type Out = UnsettledArc; open spec fn made(self, r: UnsettledArc) -> bool { true } #[verifier::external_body] fn arc_new(self) -> (r: UnsettledArc) { unimplemented!() } }
 pub struct NotifyNew {}
